@@ -358,6 +358,14 @@ Inductive rprim :=
 | REq | RNe | RLt | RLe | RGt | RGe
 | RTake | RDrop | RRotate | RSelect | RKeep | RJoin | RReshape | RMatch | RLen | RShape | RUnique.
 
+(** order keys of an index list (integers stored as bytes or doubles): monotone in the index,
+    negative exactly for negative indices (¯0 is index 0) *)
+Definition idx_keys (v : value) : list Z :=
+  match v with
+  | VByte _ d => map Z.of_N d
+  | VNum _ d => map f_key d
+  | _ => [] end.
+
 Definition nth_arg (args : list mvalue) (i : nat) : mvalue := nth i args (MV (VNum [] []) fl_none).
 
 (** both arguments are boolean byte arrays: the in-place [bool_bool] arm keeps the result's
@@ -404,6 +412,22 @@ Definition rule_flags (fixed : bool) (p : rprim) (args : list mvalue) (out : val
   | RAbs => Some (match mv_v a with VNum _ _ => clear_sorted (mv_f a) | _ => fl_none end)
   (* sign (value.rs:1834-1842): numbers, bytes, complex in place *)
   | RSign => Some (clear_sorted (mv_f a))
+  (* Array::select with a rank-1 index list, no fill (dyadic/structure.rs:1324-1414): the result
+     is a fresh array (no value marks); it is marked ascending iff (the indices are non-decreasing
+     and ALL non-negative and the selected-from array is marked ascending) or (non-increasing, all
+     non-negative, marked descending); symmetrically for descending.  A scalar index gives no
+     marks.  [a] = indices, [b] = selected-from array. *)
+  | RSelect =>
+      match shape_of (mv_v a) with
+      | [] => Some fl_none
+      | [_] =>
+          let ks := idx_keys (mv_v a) in
+          let nn := forallb (fun k => (0 <=? k)%Z) ks in
+          let iu := nn && chain Z.leb ks in
+          let id := nn && chain (fun x y => Z.leb y x) ks in
+          let su := f_up (mv_f b) in let sd := f_down (mv_f b) in
+          Some (FL false (iu && su || id && sd) (iu && sd || id && su))
+      | _ => None end
   | _ => None
   end.
 
